@@ -155,7 +155,7 @@ Fixpoint lists_even (e : expr) {struct e} : Prop :=
   | ENeg x | ENot x => lists_even x
   | ECall _ l | ELCall _ l | EList l => all l
   | EPList l => Nat.even (length l) = true /\ all l
-  | EObj _ _ _ => False        (* not in the token language *)
+  | EObj _ _ _ | EMenu _ _ _ => False        (* not in the token language *)
   | _ => True
   end.
 Fixpoint lists_even_all (l : list expr) : Prop := match l with [] => True | x :: r => lists_even x /\ lists_even_all r end.
@@ -263,6 +263,7 @@ Proof.
                  ltac:(pose proof (size_pos k); cbn [sizes] in Hf; lia)).
       reflexivity.
   - intros f pid x _ [].
+  - intros pid it mn _ _ [].
   - intros _. constructor.
   - intros x l IHx IHl [Hx Hl]. constructor; [exact (IHx Hx) | exact (IHl Hl)].
 Qed.
